@@ -304,3 +304,7 @@ mod tests {
         assert_eq!(sd.get_eos("1.の12.が。", None).unwrap(), 14);
     }
 }
+
+// verification hook: harness text lives outside the repository (see MANIFEST.hooks)
+#[cfg(any(kani, sudachi_verif))]
+include!(concat!(env!("SUDACHI_VERIF_DIR"), "/sentence_detector.rs"));
